@@ -145,8 +145,9 @@ func (sr *scenRun) setConn(name string, c net.Conn) {
 	if c == nil {
 		return
 	}
-	// bound every blocking operation on the stream (safety net, not part of the scenario)
-	_ = c.SetDeadline(time.Now().Add(1500 * time.Millisecond))
+	// far beyond the (retried) watchdog, so that it never hides a wedge: it only frees the
+	// goroutines of a scenario that did stall
+	_ = c.SetDeadline(time.Now().Add(200 * baseWatchdog))
 	sr.mu.Lock()
 	sr.conns[name] = c
 	sr.mu.Unlock()
@@ -501,10 +502,10 @@ func runScenario(steps []string) outcome {
 				if checkServe() {
 					continue
 				}
-				if os.Getenv("C09_DEBUG") != "" {
-					fmt.Fprintf(os.Stderr, "  feed not consumed: %.80s\n", b)
-				}
-				// not consumed: either Serve is about to end or it is wedged; decided at probe / end
+				// Serve is running but has not taken the peer's bytes for a whole watchdog: with
+				// every incoming stream accepted in the background nothing legitimate keeps a
+				// handler busy that long
+				return abort(outcome{stalled: true, where: fmt.Sprintf("Serve is running but did not consume the peer's input (%.60s…)", b)})
 			}
 		case "replyto":
 			if len(f) != 4 {
@@ -571,7 +572,9 @@ func runScenario(steps []string) outcome {
 			}
 			sr.probes++
 			id := fmt.Sprintf("probe%d", sr.probes)
-			sr.feed([]byte(`<iq xmlns="jabber:client" type="get" id="` + id + `" from="example.net"><ping xmlns="urn:xmpp:ping"/></iq>`))
+			if !sr.feed([]byte(`<iq xmlns="jabber:client" type="get" id="`+id+`" from="example.net"><ping xmlns="urn:xmpp:ping"/></iq>`)) && !checkServe() {
+				return abort(outcome{stalled: true, where: "Serve is running but did not even read the liveness probe"})
+			}
 			if !sr.awaitOut(func(out string) bool { return strings.Contains(out, `id="`+id+`"`) }) {
 				if checkServe() {
 					if serveOut.panicMsg != "" {
